@@ -2,9 +2,11 @@
 #![allow(clippy::missing_panics_doc, clippy::must_use_candidate)]
 use std::time::Duration;
 
+pub mod c08;
 pub mod c16;
 pub mod e1;
 pub mod e2;
+pub mod e3;
 pub mod junos;
 pub mod ev;
 pub mod exec;
@@ -40,6 +42,7 @@ pub fn dispatch(id: &str, tier: Tier, replay: Option<&str>, budget: Duration) ->
         "C05" | "C18" => e1::run(id, &mut report, budget),
         "C01" | "C02" | "C03" => e2::run(id, &mut report, budget),
         "C16" => c16::run(&mut report),
+        "C08" => c08::run(&mut report),
         _ => {
             eprintln!("unknown property {id}");
             return 2;
